@@ -44,6 +44,9 @@ Proof.
   rewrite E1, E2, IH. reflexivity.
 Qed.
 
+Lemma ltb_shift a c b : (a + b <? c + b) = (a <? c).
+Proof. destruct (a <? c) eqn:A; [apply N.ltb_lt in A; apply N.ltb_lt; lia|apply N.ltb_ge in A; apply N.ltb_ge; lia]. Qed.
+
 (* MatchList::add commutes with Match::rebase: the list only compares offsets with each other *)
 Lemma ml_add_shift b l m r :
   ml_add (map (shift_m b) l) (shift_m b m) r = (map (shift_m b) (fst (ml_add l m r)), snd (ml_add l m r)).
@@ -57,8 +60,13 @@ Proof.
     rewrite E1, E2. destruct (ms last <? ms m).
     + cbn [fst snd]. rewrite map_app. reflexivity.
     + destruct (ms m =? ms last).
-      * cbn [fst snd]. destruct r; [|reflexivity]. rewrite map_length.
-        rewrite (map_at_map b _ (fun x => set_end x (me m))); [reflexivity|]. intros x. reflexivity.
+      * (* the `same start as the last match` arm, whether or not it compares the ends *)
+        cbn [fst snd]. rewrite ?map_length.
+        repeat match goal with |- context [me (shift_m b ?x)] => rewrite (shift_end b x) end.
+        rewrite ?ltb_shift.
+        destruct r; cbn [andb]; try reflexivity;
+        try (match goal with |- context [if (?a <? ?c) then _ else _] => destruct (a <? c) end; try reflexivity);
+        (rewrite (map_at_map b _ (fun x => set_end x (me m))); [reflexivity|intros x; reflexivity]).
       * rewrite search_map. destruct (ml_search l (ms m)) as [[|] i].
         -- destruct r; cbn [fst snd]; [|reflexivity].
            rewrite (map_at_map b _ (fun ex => if me ex <? me m then set_end ex (me m) else ex)); [reflexivity|].
@@ -93,14 +101,27 @@ Qed.
 (* C14, literal family: the pipeline run on a block delivered at base b yields
    exactly the matches of the pipeline run on the block alone, shifted by b -
    for every list of sub-patterns (not anchored at a fixed offset), atoms, hit
-   order and block content *)
-Theorem pipeline_offset_translation : forall base sps atoms hits d,
+   order, block content and replace_if_longer flag *)
+Theorem pipeline_offset_translation_rf : forall rf base sps atoms hits d,
   forallb unanchored sps = true ->
-  scan_pipeline_at base sps atoms hits d = map (shift_m base) (scan_pipeline sps atoms hits d).
+  scan_pipeline_at rf base sps atoms hits d = map (shift_m base) (scan_pipeline_rf rf sps atoms hits d).
 Proof.
-  intros base sps atoms hits d U. unfold scan_pipeline_at, scan_pipeline.
+  intros rf base sps atoms hits d U. unfold scan_pipeline_at, scan_pipeline_rf.
   rewrite (no_anchored_matches sps d U). cbn [app].
-  rewrite <- run_adds_shift. rewrite map_map. reflexivity.
+  rewrite <- (run_adds_shift base). rewrite map_map. reflexivity.
+Qed.
+
+(* the pipeline model of C01 is the one above for the flag it passes *)
+Lemma scan_pipeline_flag : exists rf, forall sps atoms hits d,
+  scan_pipeline sps atoms hits d = scan_pipeline_rf rf sps atoms hits d.
+Proof. first [exists false; intros; reflexivity | exists true; intros; reflexivity]. Qed.
+
+Theorem pipeline_offset_translation : exists rf, forall base sps atoms hits d,
+  forallb unanchored sps = true ->
+  scan_pipeline_at rf base sps atoms hits d = map (shift_m base) (scan_pipeline sps atoms hits d).
+Proof.
+  destruct scan_pipeline_flag as [rf F]. exists rf. intros base sps atoms hits d U.
+  rewrite F. apply pipeline_offset_translation_rf, U.
 Qed.
 
 Lemma to_blk_shift b m : to_blk (shift_m b m) = Blocks.rebase b (to_blk m).
@@ -110,12 +131,12 @@ Proof.
 Qed.
 
 (* ... so what the block scanner adds for the block (base, d) is scan_one_literal d rebased *)
-Corollary block_pipeline_is_scan_one_rebased : forall base sps atoms d,
+Corollary block_pipeline_is_scan_one_rebased : exists rf, forall base sps atoms d,
   forallb unanchored sps = true ->
-  map to_blk (scan_pipeline_at base sps atoms (all_hits atoms d) d)
+  map to_blk (scan_pipeline_at rf base sps atoms (all_hits atoms d) d)
   = map (Blocks.rebase base) (scan_one_literal sps atoms d).
 Proof.
-  intros base sps atoms d U. rewrite pipeline_offset_translation by exact U.
+  destruct pipeline_offset_translation as [rf T]. exists rf. intros base sps atoms d U. rewrite T by exact U.
   unfold scan_one_literal. rewrite !map_map. apply map_ext. intros m. apply to_blk_shift.
 Qed.
 
@@ -133,6 +154,6 @@ Example pipeline_translation_example :
   let atoms := [mkAtom 0 [97; 98; 99] 0 false] in
   let d := [120; 97; 98; 99; 97; 98; 99] in
   forallb unanchored sps = true /\
-  map to_blk (scan_pipeline_at 100 sps atoms (all_hits atoms d) d) = [(101, 3, 0); (104, 3, 0)] /\
+  map to_blk (scan_pipeline_at true 100 sps atoms (all_hits atoms d) d) = [(101, 3, 0); (104, 3, 0)] /\
   scan_one_literal sps atoms d = [(1, 3, 0); (4, 3, 0)].
 Proof. vm_compute. repeat split. Qed.
